@@ -349,7 +349,7 @@ func (h *c12CollectHarness) Project() (any, error) {
 			s, ok := cl.datasetSamplers[h.sc.Names[d]]
 			views := []any{}
 			if ok {
-				views = h.namer.View(h.factory, s, &bad)
+				views = h.namer.View(s, h.clears, &bad)
 			}
 			per[d] = map[string]any{"c": ok, "s": views}
 		}
@@ -358,11 +358,7 @@ func (h *c12CollectHarness) Project() (any, error) {
 		}
 		local[name] = per
 	}
-	unique := 0
-	if v, ok := h.met.Get("unique_dynsampler_count"); ok {
-		unique = int(v)
-	}
-	out := map[string]any{"local": local, "unique": unique}
+	out := map[string]any{"local": local}
 	if len(bad) > 0 {
 		out["bad"] = bad
 	}
